@@ -40,6 +40,25 @@ def handle : List String → Option String
       let nb := knots.length - (deg + 1)
       let r := asmPspline deg nb (← d.toNat?) (← parseRat? lam) (designRows knots deg (← parseList? parseRat? xs)) (← parseList? parseRat? ys) (← parseList? parseRat? ws)
       some s!"{showMat r.1}|{showRats r.2}"
+  | ["c07.asmx", kind, deg, d, lam, p1, lower, knots, xs, ys, ws, aux] => do
+      -- kind 1 iasls (p1 = lam_1, lower = pspline.lower), 2 drpls (p1 = eta), 3 aspls (aux = alpha)
+      let deg ← deg.toNat?
+      let d ← d.toNat?
+      let lam ← parseRat? lam
+      let p1 ← parseRat? p1
+      let knots ← parseList? parseRat? knots
+      let xs ← parseList? parseRat? xs
+      let ys ← parseList? parseRat? ys
+      let ws ← parseList? parseRat? ws
+      let aux ← parseList? parseRat? aux
+      let nb := knots.length - (deg + 1)
+      let rows := designRows knots deg xs
+      let r ← match kind with
+        | "1" => some (asmPIasls deg nb d lam p1 rows ys ws (lower == "1"))
+        | "2" => some (asmPDrpls deg nb d lam p1 rows ys ws (interpMid knots xs ws deg))
+        | "3" => some (asmPAspls deg nb d lam rows ys ws (interpMid knots xs aux deg))
+        | _ => none
+      some s!"{showMat r.1}|{showRats r.2}"
   | _ => none
 
 end PbVerif.Drv.C07
